@@ -134,6 +134,78 @@ func sendNested(r *vh.Rng, w *Lit) Send {
 	return s
 }
 
+// decoy: a constant of the same shape as l but another value (a default that must lose against a supplied value).
+func decoy(l *Lit) *Lit {
+	c := deNull(l)
+	switch c.K {
+	case "int":
+		z := bigOf(c.I)
+		c.I = z.Add(z, big.NewInt(1)).String()
+	case "float":
+		c.F = c.F + 1
+	case "str":
+		c.S = c.S + "x"
+	case "bool":
+		c.B = !c.B
+	case "list":
+		c.L = []*Lit{}
+	}
+	return c
+}
+
+// sendNestedDefault: variables at every depth of the argument literal (inside object literals, lists inside objects,
+// objects inside lists), each declared with a default: left unsupplied, supplied null (the default applies), supplied
+// (the default - a decoy - must lose), or declared without default and supplied.
+func sendNestedDefault(r *vh.Rng, w *Lit) Send {
+	s := Send{Transport: "nested-default", Vars: map[string]interface{}{}, Defs: []VarDef{{Name: "nul"}}}
+	n := 0
+	var cut func(l *Lit, depth int) *Lit
+	cut = func(l *Lit, depth int) *Lit {
+		if l.K == "null" {
+			return &Lit{K: "var", S: "nul"}
+		}
+		if depth > 0 && !hasNull(l) && r.Chance(25+10*depth) {
+			name := fmt.Sprintf("e%d", n)
+			n++
+			d := VarDef{Name: name}
+			switch r.Intn(4) {
+			case 0:
+				d.Default = deNull(l)
+			case 1:
+				d.Default = deNull(l)
+				s.Vars[name] = nil
+			case 2:
+				d.Default = decoy(l)
+				s.Vars[name] = toJSON(l, r.Bool())
+			default:
+				s.Vars[name] = toJSON(l, r.Bool())
+			}
+			s.Defs = append(s.Defs, d)
+			return &Lit{K: "var", S: name}
+		}
+		switch l.K {
+		case "list":
+			c := &Lit{K: "list", L: []*Lit{}}
+			for _, e := range l.L {
+				c.L = append(c.L, cut(e, depth+1))
+			}
+			return c
+		case "obj":
+			c := &Lit{K: "obj"}
+			for _, f := range l.O {
+				if f.V.K == "null" {
+					continue
+				}
+				c.O = append(c.O, LField{f.N, cut(f.V, depth+1)})
+			}
+			return c
+		}
+		return l.clone()
+	}
+	s.Args = cut(w, 0).O
+	return s
+}
+
 // sendDefault: every top-level argument through a variable whose default is the value; nothing (or null) supplied.
 func sendDefault(r *vh.Rng, w *Lit, nonNull bool) Send {
 	s := Send{Transport: "default", Vars: map[string]interface{}{}, Defs: []VarDef{{Name: "nul"}}}
@@ -851,6 +923,7 @@ func searchVariant(r *vh.Rng, seeds []Case) Case {
 			if !(sd.Class == "null-for-required" && hasNullTop) {
 				c.Sends = append(c.Sends, sendDefault(r, w, false))
 			}
+			c.Sends = append(c.Sends, sendNestedDefault(r, w), sendNestedDefault(r, w))
 			if sd.Expect == "echo" && len(w.O) == len(m.Fields) {
 				_, w2 := genVal(r, m, 2)
 				c.Sends = append(c.Sends, sendOverride(r, w, w2))
@@ -1017,7 +1090,7 @@ func genCase(r *vh.Rng) Case {
 		c := Case{Ty: td, Class: "valid", Expect: "echo", Sent: v}
 		c.Sends = append(c.Sends, sendLiteral(w), sendVariable(r, w), sendNested(r, w), sendDefault(r, w, false))
 		_, w2 := genVal(r, m, 2)
-		c.Sends = append(c.Sends, sendOverride(r, w, w2))
+		c.Sends = append(c.Sends, sendOverride(r, w, w2), sendNestedDefault(r, w))
 		return c
 	}
 	cls := r.Pick(mutationClasses)
@@ -1087,6 +1160,7 @@ func genCase(r *vh.Rng) Case {
 		if cls != "null-for-required" { // a null top-level argument has no default to carry
 			c.Sends = append(c.Sends, sendDefault(r, w, false))
 		}
+		c.Sends = append(c.Sends, sendNestedDefault(r, w))
 		return c
 	}
 }
@@ -1095,7 +1169,7 @@ func main() {
 	o := vh.ParseFlags()
 	log.SetOutput(ioutil.Discard) // server.go logs every refused request
 	run := vh.NewRun("C18", o)
-	run.Rule = "cases = (argument struct type, value or mutated wire form) sent through 1-5 transports (literal, variable, nested-variable, default, default-overridden); 70% in-range values, 30% malformed (13 mutation classes); 12% look-alike requests (the field selected 2-3 times under aliases, in fragments too, with argument sets that print the same under fmt %v but differ in JSON kind at one position, both orders, literals and variables); 30% of the sends put the field into a named or an inline fragment; every request also goes through graphql.HTTPHandler and over a JSON socket (subscribe or mutate); distinct by JSON text of the case; non-trivial = valid case whose value differs from the zero value of its type, or malformed case (the mutation was applied)"
+	run.Rule = "cases = (argument struct type, value or mutated wire form) sent through 1-6 transports (literal, variable, nested-variable, default, default-overridden, nested-default: variables with defaults at every depth of the literal, unsupplied / supplied null / supplied); 70% in-range values, 30% malformed (13 mutation classes); 12% look-alike requests (the field selected 2-3 times under aliases, in fragments too, with argument sets that print the same under fmt %v but differ in JSON kind at one position, both orders, literals and variables); 30% of the sends put the field into a named or an inline fragment; every request also goes through graphql.HTTPHandler and over a JSON socket (subscribe or mutate); distinct by JSON text of the case; non-trivial = valid case whose value differs from the zero value of its type, or malformed case (the mutation was applied)"
 	r := vh.NewRng(o.Seed)
 
 	var cases []Case
